@@ -79,6 +79,7 @@ type DB struct {
 	mcompCmdC        chan cCmd
 	compErrC         chan error
 	compPerErrC      chan error
+	compPerErrSet    int32 // set (atomically) once the persistent error state is entered
 	compErrSetC      chan error
 	compWriteLocking bool
 	compStats        cStats
